@@ -75,6 +75,17 @@ class FakeProxyEndpoint(object):
         return defer.succeed(self.proto)
 
 
+class SyncLossTransport(proto_helpers.StringTransport):
+    """reports the loss of the connection to the protocol from inside loseConnection(), as Twisted's
+    StringTransportWithDisconnection does"""
+    connected = True
+
+    def loseConnection(self):
+        if self.connected:
+            self.connected = False
+            self.proto.connectionLost(failure.Failure(error.ConnectionDone("Bye.")))
+
+
 V4 = b"\x01\x02\x03\x04"
 V6 = bytes(range(0x20, 0x30))
 NAME = b"abc"
@@ -98,8 +109,9 @@ def stream_for(scen):
 
 
 class Run(object):
-    def __init__(self, scen, hello=False, scale=1):
+    def __init__(self, scen, hello=False, scale=1, sync=False):
         self.scen = scen
+        self.sync = sync        # the transport reports the loss from inside loseConnection()
         self.hello = hello
         # scale: one byte of application data in the model stands for that many bytes on the wire (the application's
         # first segments may be far longer than any SOCKS reply)
@@ -109,6 +121,8 @@ class Run(object):
         self.stream = self.mrep + self.rep + self.appbytes
         self.pos = 0
         self.ep = FakeProxyEndpoint()
+        if sync:
+            self.ep.transport_factory = SyncLossTransport
         self.appf = AppFactory(hello)
         self.fired = []
         self.exc = False
@@ -174,7 +188,7 @@ class Run(object):
                 done["k"] = "ok"
                 done["ek"] = self.okkind(v, app)
         return dict(sentReq=bool(sent_req), app=app is not None, appN=appn, appW=appw, done=done,
-                    closed=bool(self.tr.disconnecting), appLost=applost, exc=self.exc)
+                    closed=bool(self.tr.disconnecting or not getattr(self.tr, "connected", True)), appLost=applost, exc=self.exc)
 
     def errkind(self, f):
         e = f.value
@@ -236,6 +250,8 @@ class Run(object):
                     self.errors.append(failure.Failure().getTraceback())
                     self.proto.connectionLost(failure.Failure(error.ConnectionLost("after exception")))
             elif a == "Disconnect":
+                if self.sync:
+                    self.tr.connected = False       # (the peer went away: hanging up later is a no-op)
                 self.proto.connectionLost(failure.Failure(error.ConnectionDone()))
             elif a == "AppClose":
                 self.appf.built[0].transport.loseConnection()
@@ -248,8 +264,8 @@ class Run(object):
         return self.obs()
 
 
-def replay(scen, script, hello=False, scale=1):
-    run = Run(scen, hello, scale)
+def replay(scen, script, hello=False, scale=1, sync=False):
+    run = Run(scen, hello, scale, sync)
     steps = []
     for e in script:
         s = dict(e)
@@ -257,7 +273,7 @@ def replay(scen, script, hello=False, scale=1):
         steps.append(s)
         if s["obs"]["exc"]:
             break       # the connection was dropped after the exception; nothing more can happen on it
-    return dict(scen=scen, steps=steps, hello=bool(hello), scale=scale, errors=run.errors[:2])
+    return dict(scen=scen, steps=steps, hello=bool(hello), scale=scale, sync=bool(sync), errors=run.errors[:2])
 
 
 def total(scen):
